@@ -215,6 +215,15 @@ def check(ctx):
                construct="%s/handlers" % cls.qual, msg="no handler reached for %s" % sorted(exp - names))
     ctx.count("decode_events", n_dec)
     ctx.count("network_and_timer_paths", n_paths)
+    # E6: a packet cut short inside a fixed-width field must fault (the wrappers then abort the connection); a 16-bit read that slices
+    # instead of indexing accepts a 0- or 1-byte field as a number, so a truncated acknowledgement can settle a pending request
+    from ..codec_prims import check_primitives
+    _probs, _facts = check_primitives(a.prog)
+    ln = _facts.get("u16_lenient")
+    ctx.ob("E6", "decode16Int faults on a field shorter than 2 bytes", ln is None, where="src/mqtt/pdu.py:%d" % (ln.lineno if ln is not None else 0),
+           function="mqtt.pdu.decode16Int", construct="mqtt.pdu.decode16Int/lenient",
+           msg="decode16Int reads the 16-bit field through a slice: a packet cut short inside a packet identifier is decoded (missing bytes "
+               "count as nothing) instead of raising, so the truncated packet has the effect of a well-formed one")
     ctx.floor("decode events over contexts", n_dec, 12)
     ctx.floor("network and timer paths", n_paths, 40)
 
